@@ -27,6 +27,7 @@ def declare(rep):
     rep.rule("C09.half-target-volume", "each daughter's target_volume_ is the mother's target_volume_ / 2", floor=2)
     rep.rule("C09.stale-threshold", "in the divider no size of the mother's node/face list is kept across a call that may compact the list (rebase): the 'ids >= threshold are interface points' convention relies on it", floor=1)
     rep.rule("C09.rotation-shortcut", "the interface points are flattened with the identity instead of the quaternion rotation only when the division normal is exactly the z axis: under any tolerance the contour shared with the lateral faces is projected onto a plane that is not the division plane", floor=1)
+    rep.rule("C09.plane-origin", "the origin of the cut plane and the origin used to sort the faces between the daughters are the mother's centroid computed from her current node positions (compute_centroid(), or the cached centroid_ only after update_centroid() in divide_cell): the cache is refreshed by the mesh refiner only and is stale whenever nodes have moved since", floor=2)
     rep.rule("C09.same-type", "every concrete cell class overrides get_cell_same_type and constructs its own class", floor=5)
     rep.rule("C09.population-update", "cell_divider::run: success appends two cells + records one removal under critical, ids from the shared post-incremented counter, removal + renumbering after the loop, no unsynchronised access to the list being resized", floor=5)
 
@@ -36,6 +37,7 @@ def run(rep, prog, tier):
         declare(rep)
     stale_threshold(rep, prog)
     rotation_shortcut(rep, prog)
+    plane_origin(rep, prog)
     X = e2.Exceptions(prog, with_optional_value=True)
     fn = prog.fn("cell_divider::divide_cell")
     # (1)
@@ -357,3 +359,51 @@ def rotation_shortcut(rep, prog):
     if n_id == 0:
         # no shortcut at all: the quaternion branch is taken for every normal - nothing to decide
         rep.ok(rule, prog, fn, None, "no identity shortcut: the rotation is always built from the division normal")
+
+
+ORIGIN_ARG = {"cell_divider::add_intersection_points": 1, "cell_divider::create_daughter_cells": 5}
+
+
+def plane_origin(rep, prog):
+    """'a plane through the mother's centroid': the origin handed to the two consumers of the plane is the centroid of the mother's
+    current geometry."""
+    from ..model import expand
+    fn = prog.fn("cell_divider::divide_cell")
+    mother = fn["params"][0]["did"]
+    fi = prog.index(fn)
+
+    def on_mother(call):
+        o = call_obj(call)
+        o = e1.peel_handle(o) if isinstance(o, dict) else {}
+        return o.get("k") == "DeclRefExpr" and o["ref"].get("did") == mother
+
+    refresh = [n for n in walk(fn["body"], into_lambdas=False) if n.get("k") == "CXXMemberCallExpr" and n.get("callee") == "cell::update_centroid" and on_mother(n)]
+    seen = 0
+    for call in walk(fn["body"], into_lambdas=False):
+        if call.get("k") != "CallExpr" or call.get("callee") not in ORIGIN_ARG:
+            continue
+        args = call_args(call)
+        idx = ORIGIN_ARG[call["callee"]]
+        if len(args) <= idx:
+            raise AnalysisBroken("%s: signature changed" % call["callee"])
+        seen += 1
+        e = strip(expand(fn, args[idx]))
+        while e.get("k") in ("ParenExpr", "MaterializeTemporaryExpr", "CXXBindTemporaryExpr", "CXXConstructExpr") and len([c for c in e.get("c", []) if isinstance(c, dict)]) == 1:
+            e = strip([c for c in e["c"] if isinstance(c, dict)][0])
+        short_callee = call["callee"].split("::")[-1]
+        if e.get("k") == "CXXMemberCallExpr" and e.get("callee") == "cell::compute_centroid" and on_mother(e):
+            rep.ok("C09.plane-origin", prog, fn, call, "%s: plane origin = %s" % (short_callee, short(e, 40)))
+            continue
+        cached = (e.get("k") == "CXXMemberCallExpr" and e.get("callee") == "cell::get_centroid" and on_mother(e)) or \
+                 (e.get("k") == "MemberExpr" and (e.get("ref") or {}).get("qn") == "cell::centroid_")
+        if cached:
+            first = min(refresh, key=lambda r: (r.get("l") or 0)) if refresh else None
+            if first is not None and fi.enclosing(first, ("IfStmt", "ForStmt", "WhileStmt", "CXXForRangeStmt", "SwitchStmt", "DoStmt")) is None and (first.get("l") or 0) < (call.get("l") or 0):
+                rep.ok("C09.plane-origin", prog, fn, call, "%s: plane origin = cached centroid, refreshed unconditionally by update_centroid() at line %s" % (short_callee, first.get("l")))
+            else:
+                rep.violation("C09.plane-origin", prog, fn, call, "%s cuts through the cached centroid" % short_callee,
+                              "divide_cell hands %s the mother's cached centroid_ (%s) as the plane origin without refreshing it: the cache is written by cell::update_centroid only (called by the mesh refiner), so the plane goes through where the centroid was at the last refinement (or through (0,0,0) for a cell never refined), not through the mother's centroid" % (short_callee, short(e, 40)))
+            continue
+        raise AnalysisBroken("divide_cell: the plane origin handed to %s (%s) is neither compute_centroid() nor the cached centroid of the mother" % (short_callee, short(e, 60)))
+    if seen == 0:
+        raise AnalysisBroken("divide_cell: no call to add_intersection_points / create_daughter_cells")
